@@ -424,6 +424,8 @@ def _verify_body(eng, contract, target, mod, cname, node, res, seed, timeout_ms,
     eng.current_node = node
     fid = ctx.new_id()
     ctx.frames[fid] = Frame(vars, None, contract.self_obj, (mod, cname), fn.name, mod)
+    from .engine import assigned_names
+    ctx.frames[fid].assigned = assigned_names(fn)
     ctx.fid = fid
     if is_method and contract.self_rec is not None:
         vars[pos[0]] = contract.self_rec(eng, ctx)
